@@ -9,6 +9,8 @@ from fractions import Fraction
 
 import numpy as np
 
+import random as random_module
+
 import gen_boltz
 import pyrx
 import vlib
@@ -116,8 +118,8 @@ def make_background(grid, c):
 def make_solver(grid, ps, bg, coll_card, bM, bN, mode="Spectral", cmult=1.0, order=0):
     """order: permutation of the setter calls (they must commute)"""
     WallGo = wg()[0]
-    s = WallGo.BoltzmannSolver(grid, bM, bN, mode, cmult) if cmult != 1.0 else \
-        WallGo.BoltzmannSolver(grid, bM, bN, mode)
+    kw = dict(collisionMultiplier=cmult) if cmult != 1.0 else {}
+    s = WallGo.BoltzmannSolver(grid, basisM=bM, basisN=bN, derivatives=mode, **kw)
     c = copy.deepcopy(coll_card)
     c.changeBasis(bN)
     steps = [lambda: s.updateParticleList(ps), lambda: s.setBackground(bg),
@@ -185,7 +187,17 @@ def rel(a, b):
 # ------------------------------------------------------------------------------------
 # direct validation
 
-TOL = 1e-9
+TOL = 1e-11        # equality across bases / call paths (observed <= 2e-14 up to 2900 unknowns)
+MARGINS = {}       # key -> largest observed/tolerance on this run (recorded in the evidence)
+
+
+def margin(key, observed, tol):
+    if np.isfinite(observed):
+        MARGINS[key] = max(MARGINS.get(key, 0.0), float(observed) / tol)
+
+
+class HarnessGap(Exception):
+    """the harness (not WallGo) could not carry out a step"""
 TOL_RES = 1e-11     # residual of a dense double-precision solve (observed <= 5e-15, cond <= 1e3)
 
 
@@ -203,6 +215,7 @@ def results_outputs(res, grid, bM, bN, pts):
 def compare_outputs(out, ref, tol, what, report, replay):
     for k in ("deltaF", "Deltas", "truncationError", "criterion1", "criterion2"):
         d = rel(out[k], ref[k])
+        margin("equal-outputs:%g" % tol, d, tol)
         if not d < tol:
             report("%s of getDeltas differs by %.2e %s" % (k, d, what),
                    dict(replay, output=k, diff=d), "basis-dependence:%s" % k)
@@ -235,6 +248,8 @@ def check_family(case, report, bases=None, light=False):
                 report("solution / operator is not double precision (%s, %s)" % (dF.dtype, op.dtype),
                        dict(check="family", case=case, basisM=bM, basisN=bN), "dtype")
             r = float(np.linalg.norm(op @ dF.flatten() - src) / (np.linalg.norm(src) + 1e-300))
+            if case["kind"] != "hom":
+                margin("residual", r, TOL_RES)
             if case["kind"] != "hom" and not r < TOL_RES:
                 report("residual of the assembled system |A x - s|/|s| = %.2e (basisM=%s "
                        "basisN=%s, %d unknowns)" % (r, bM, bN, len(src)),
@@ -376,6 +391,8 @@ def check_fd(case, report):
         es.append(rel(sf, s))
         el.append(rel(lf, l))
     for name, e in (("source", es), ("liouville", el)):
+        margin("fd-convergence:ratio", max(e[i + 1] / e[i] for i in range(len(e) - 1)), 1 / 2.5)
+        margin("fd-convergence:last", e[-1], 2e-2)
         ok = all(e[i + 1] < e[i] / 2.5 for i in range(len(e) - 1)) and e[-1] < 2e-2
         if not ok:
             report("finite-difference %s does not converge (2nd order) to the spectral one "
@@ -461,6 +478,7 @@ def check_physics(case, report, M=40, mode="Spectral", tol=5e-3):
                     want[a, al, be, ga] = -(K1 * dfx * dxidchi[al] - K2 * dfp * dpzdrz[be])
     rp = dict(check="physics", case=case, M=M, mode=mode, tol=tol)
     e1 = rel(k1c, k1a)
+    margin("physics:K1", e1, 1e-9)
     if not e1 < 1e-9:
         w = np.unravel_index(np.argmax(np.abs(k1c - k1a)), src.shape)
         report("coefficient of d/dchi in the Liouville operator differs from dchi/dxi gamma_w (pz "
@@ -475,6 +493,7 @@ def check_physics(case, report, M=40, mode="Spectral", tol=5e-3):
                    e2, tuple(int(x) for x in w), k2c[w], k2a[w]), dict(rp, diff=e2),
                "physics:liouville-K2")
     e = rel(src, want)
+    margin("physics:%s" % mode.split()[0], max(e, e2), tol)
     if not e < tol:
         w = np.unravel_index(np.argmax(np.abs(src - want)), src.shape)
         report("source differs from -Liouville[f_eq] (analytic profiles and coefficients, %s, "
@@ -516,6 +535,7 @@ def check_reuse(case, report):
         for lab, got, want in (("first background", a1, fresh1), ("second background", a2, fresh2),
                                ("first background again", a1b, fresh1)):
             d = max(rel(got.deltaF, want.deltaF), rel(deltas_array(got), deltas_array(want)),
+                    rel(got.linearizationCriterion1, want.linearizationCriterion1),
                     rel(got.linearizationCriterion2, want.linearizationCriterion2),
                     abs(got.truncationError - want.truncationError))
             if not d == 0.0:
@@ -525,6 +545,71 @@ def check_reuse(case, report):
         if not float(np.abs(ah.deltaF).max()) <= 1e-9 * sc:
             report("re-used solver: homogeneous background after a varying one gives deltaF up "
                    "to %.2e" % float(np.abs(ah.deltaF).max()), rp, "history:reuse")
+
+
+def check_grid_mutation(case, report):
+    """the EOM rescales the grid of a live solver between solves (changePositionFalloffScale /
+    Grid3Scales.changePositionFalloffScale): the solver must then behave like a solver built on
+    a grid constructed with the new scale"""
+    grid, ps, coll, _ = setup(case)
+    cm = case.get("cmult", 1.0)
+    c2 = dict(case, Lxi=case["Lxi"] * 1.7)
+    for bN in BASES:
+        s = make_solver(grid, ps, make_background(grid, case), coll, "Cardinal", bN, cmult=cm)
+        s.getDeltas()
+        if case.get("grid") == "Grid3Scales":
+            L = c2["Lxi"]
+            grid.changePositionFalloffScale(4 * L, 6 * L, L, 0)
+        else:
+            grid.changePositionFalloffScale(c2["Lxi"])
+        s.setBackground(make_background(grid, case))
+        got = s.getDeltas()
+        g2 = make_grid(c2)
+        coll2, _ = make_collision(g2, ps, case["cseed"], case["cscale"], case["coffdiag"])
+        want = make_solver(g2, ps, make_background(g2, case), coll2, "Cardinal", bN,
+                           cmult=cm).getDeltas()
+        d = max(rel(got.deltaF, want.deltaF), rel(deltas_array(got), deltas_array(want)),
+                rel(got.linearizationCriterion2, want.linearizationCriterion2))
+        margin("grid-mutation", d, TOL)
+        if not d < TOL:
+            report("solver whose grid was rescaled in place (basisN=%s) differs from a solver "
+                   "built on a fresh grid of the new scale by %.2e" % (bN, d),
+                   dict(check="gridmut", case=case, basisN=bN, diff=d), "history:grid-mutation")
+        # put the shared grid back for the next basis
+        if case.get("grid") == "Grid3Scales":
+            L = case["Lxi"]
+            grid.changePositionFalloffScale(4 * L, 6 * L, L, 0)
+        else:
+            grid.changePositionFalloffScale(case["Lxi"])
+
+
+def runtime_copy_hooks(case):
+    """copy hooks as the interpreter sees them on a LIVE solver: for every object reachable from
+    the solver, type(o) must not define __deepcopy__ / __copy__ / __reduce__ / __reduce_ex__ /
+    __getstate__ / __setstate__ other than the ones of object / numpy, and copyreg must not know
+    the type (catches hooks attached after the class body, inherited, or registered)"""
+    import copyreg
+    grid, ps, coll, _ = setup(case)
+    s = make_solver(grid, ps, make_background(grid, case), coll, "Cardinal", "Chebyshev")
+    seen, todo, found = set(), [s], []
+    while todo:
+        o = todo.pop()
+        if id(o) in seen:
+            continue
+        seen.add(id(o))
+        t = type(o)
+        if t.__module__.split(".")[0] != "WallGo":
+            continue
+        for h in ("__deepcopy__", "__copy__", "__getstate__", "__setstate__", "__reduce__",
+                  "__reduce_ex__"):
+            for k in t.__mro__:
+                if k.__module__.split(".")[0] == "WallGo" and h in vars(k):
+                    found.append((k.__module__, k.__name__, h))
+        if t in copyreg.dispatch_table:
+            found.append((t.__module__, t.__name__, "copyreg"))
+        for v in list(getattr(o, "__dict__", {}).values()):
+            todo.extend(v if isinstance(v, (list, tuple)) else [v])
+    return sorted(set(found))
 
 
 def check_background(case, report):
@@ -556,6 +641,54 @@ def check_background(case, report):
                % (rel(d2, d1), rel(d1b, d1)), dict(check="background", case=case),
                "background:history")
 
+def make_eom(solver, nfields=1):
+    """An EOM object carrying every attribute EOM.__init__ sets, without constructing the
+    thermodynamics / hydrodynamics (None): the constructor's `self.X = expr` statements are
+    executed on a bare instance with the parameters bound to the solver's objects and to the
+    defaults of the signature."""
+    import ast as _ast
+    import inspect
+    from WallGo.equationOfMotion import EOM
+    eom = object.__new__(EOM)
+    sig = inspect.signature(EOM.__init__)
+    ns = {k: (p.default if p.default is not inspect.Parameter.empty else None)
+          for k, p in sig.parameters.items() if k != "self"}
+    ns.update(boltzmannSolver=solver, grid=solver.grid, nbrFields=nfields, meanFreePathScale=1.0,
+              wallThicknessBounds=(0.1, 100.0), wallOffsetBounds=(-10.0, 10.0),
+              includeOffEq=True, thermodynamics=None, hydrodynamics=None, self=eom)
+    try:
+        tree = _ast.parse(inspect.getsource(EOM.__init__).lstrip())
+    except (OSError, SyntaxError):
+        tree = None
+    if tree is not None:
+        for st in tree.body[0].body:
+            if isinstance(st, _ast.Assign) and len(st.targets) == 1 and \
+                    isinstance(st.targets[0], _ast.Attribute) and \
+                    _ast.unparse(st.targets[0].value) == "self":
+                try:
+                    val = eval(compile(_ast.Expression(st.value), "<eom-init>", "eval"), ns)
+                except Exception:
+                    val = None
+                object.__setattr__(eom, st.targets[0].attr, val)
+    eom.boltzmannSolver = solver
+    return eom
+
+
+def call_eom(fn):
+    """run a method of the EOM stub; an error raised in equationOfMotion.py itself while
+    reading EOM state (AttributeError / TypeError on the stub's None collaborators) is a gap of
+    the harness, not a failing input of the Boltzmann solver"""
+    try:
+        return fn()
+    except (AttributeError, TypeError) as ex:
+        tb = ex.__traceback__
+        while tb.tb_next is not None:
+            tb = tb.tb_next
+        if tb.tb_frame.f_code.co_filename.endswith("equationOfMotion.py"):
+            raise HarnessGap("EOM stub cannot run %s: %r" % (tb.tb_frame.f_code.co_name, ex))
+        raise
+
+
 def check_history(case, report):
     """spectral solve, FD cross-check through the real EOM method, spectral solve again"""
     from WallGo.equationOfMotion import EOM
@@ -564,13 +697,12 @@ def check_history(case, report):
     bg = make_background(grid, case)
     for bN in BASES:
         s = make_solver(grid, ps, bg, coll, "Cardinal", bN, cmult=case.get("cmult", 1.0))
-        eom = object.__new__(EOM)
-        eom.boltzmannSolver = s
+        eom = make_eom(s, case.get("nfields", 1))
         first = s.getDeltas()
         before = (s.derivatives, s.basisM, s.basisN,
                   tuple(s.collisionArray.polynomialData.basis), s.collisionArray[:].copy())
-        fd1 = eom.getBoltzmannFiniteDifference()
-        fd2 = eom.getBoltzmannFiniteDifference()
+        fd1 = call_eom(eom.getBoltzmannFiniteDifference)
+        fd2 = call_eom(eom.getBoltzmannFiniteDifference)
         second = s.getDeltas()
         after = (s.derivatives, s.basisM, s.basisN,
                  tuple(s.collisionArray.polynomialData.basis), s.collisionArray[:].copy())
@@ -724,7 +856,13 @@ def run(ctx):
         c_src = vlib.read_src("collisionArray.py")
         k_src = vlib.read_src("containers.py")
         reach = {f: vlib.read_src(f) for f in gen_boltz.REACHABLE}
-        text, tr = gen_boltz.generate(b_src, e_src, c_src, k_src, reach)
+        try:
+            rt_hooks = runtime_copy_hooks(rand_case(random_module.Random(0), 4, 3, 2, "all"))
+        except Exception as ex:
+            ctx.log(traceback.format_exc())
+            ctx.broken.append("harness-gap: live solver for the run-time copy-hook fact: %r" % ex)
+            rt_hooks = [("?", "?", "unknown")]
+        text, tr = gen_boltz.generate(b_src, e_src, c_src, k_src, reach, rt_hooks)
         ctx.write("Boltz.v", text, sources=dict(
             files=["src/WallGo/equationOfMotion.py"] + ["src/WallGo/" + f for f in sorted(reach)],
             sha=[vlib.sha(e_src)] + [vlib.sha(reach[f]) for f in sorted(reach)],
@@ -780,6 +918,18 @@ def run(ctx):
         procs = []
 
     # --- direct validation on the real code (runs while coqc works) ----------------------
+    def guard(label, rp, fn):
+        """harness gaps are reported as such (ctx.broken), exceptions of the code as inputs"""
+        try:
+            return fn()
+        except HarnessGap as ex:
+            ctx.log("HARNESS GAP:", ex)
+            ctx.broken.append("harness-gap: %s" % ex)
+        except Exception as ex:
+            ctx.log(traceback.format_exc())
+            report("%s raised %r" % (label, ex), rp, "raises")
+        return None
+
     try:
         kinds = ["T", "v", "f", "all", "hom"]
         # (M, N, particles, kind, variant overrides)
@@ -789,107 +939,104 @@ def run(ctx):
         if ctx.quick:
             plan = [(6, 3, nP, k, {}) for nP in (1, 2) for k in kinds] + \
                    [(8, 5, nP, k, {}) for nP in (1, 2) for k in ("all", "T")] + \
-                   [(6, 3, 3, "all", {}), (6, 3, 1, "hom", dict(dvmid=0.05))] + \
+                   [(6, 3, 3, "all", {}), (6, 3, 1, "hom", dict(dvmid=0.05)),
+                    (7, 3, 2, "all", {}), (5, 5, 1, "f", {}),
+                    (7, 3, 2, "hom", dict(grid="Grid3Scales", cmult=None)),
+                    (6, 3, 2, "all", dict(grid="Grid3Scales", nfields=2))] + \
                    [(6, 3, 1 + i % 2, ("all", "T", "v")[i % 3], v) for i, v in enumerate(variants)]
         else:
-            plan = [(M, N, nP, k, {}) for (M, N) in ((6, 3), (8, 5), (10, 5), (7, 3), (12, 3))
+            plan = [(M, N, nP, k, {}) for (M, N) in ((6, 3), (8, 5), (10, 5), (7, 3), (12, 3),
+                                                     (9, 5), (5, 7))
                     for nP in (1, 2) for k in kinds for _ in range(2)] + \
                    [(M, N, nP, k, {}) for (M, N, nP) in ((14, 7, 1), (14, 7, 2), (20, 5, 2),
-                                                         (24, 9, 1), (40, 3, 2))
+                                                         (24, 9, 1), (40, 3, 2), (7, 9, 2),
+                                                         (6, 11, 2))
                     for k in ("all", "T", "v")] + \
                    [(M, N, 3, k, {}) for (M, N) in ((6, 3), (8, 5)) for k in ("all", "hom")] + \
-                   [(M, N, 1 + i % 3, k, v) for (M, N) in ((6, 3), (8, 5), (12, 3))
+                   [(M, N, 1 + i % 3, k, v) for (M, N) in ((6, 3), (8, 5), (11, 3))
                     for i, v in enumerate(variants) for k in ("all", "T", "v", "f", "hom")]
         nfam = 0
         for (M, N, nP, kind, var) in plan:
             case = rand_case(rng, M, N, nP, kind, **var)
-            try:
-                check_family(case, report)
-            except Exception as ex:
-                ctx.log(traceback.format_exc())
-                report("solver raised %r" % ex, dict(check="family", case=case), "raises")
+            guard("solver", dict(check="family", case=case),
+                  lambda: check_family(case, report))
             ctx.count("family_4bases_fd", case, bucket="%s/P%d/%dx%d%s" % (
                 kind, nP, M, N, "".join("/" + k for k in sorted(var))))
             nfam += 1
             if nfam <= 2:
                 ctx.sample(dict(family=case))
-        # production sizes: thousands of unknowns
-        prod = [(22, 11, 1, [("Cardinal", "Chebyshev"), ("Cardinal", "Cardinal")])]
+        # production sizes (thousands of unknowns) and several particles at production N
+        prod = [(22, 11, 1, [("Cardinal", "Chebyshev"), ("Cardinal", "Cardinal")]),
+                (5, 9, 2, [("Cardinal", "Chebyshev"), ("Chebyshev", "Cardinal")])]
         if not ctx.quick:
             prod = [(22, 11, 1, None), (30, 11, 1, [("Cardinal", "Chebyshev"),
-                                                     ("Chebyshev", "Chebyshev")])]
+                                                     ("Chebyshev", "Chebyshev")]),
+                    (7, 11, 2, None), (9, 9, 3, None)]
         for (M, N, nP, bases) in prod:
             case = rand_case(rng, M, N, nP, "all")
-            try:
-                check_production(case, report, bases)
-            except Exception as ex:
-                ctx.log(traceback.format_exc())
-                report("solver raised %r" % ex, dict(check="production", case=case,
-                                                     bases=bases), "raises")
-            ctx.count("family_production_size", case, bucket="%dx%d" % (M, N))
-        for kind in ("T", "v", "f", "all"):
-            for rep in range(ctx.n(1, 4)):
-                case = rand_case(rng, 0, rng.choice([3, 5]) if not ctx.quick else 3,
-                                 1 + rep % 2, kind)
-                try:
-                    es, el = check_fd(case, report)
-                    ctx.count("fd_vs_spectral_refinement", case, bucket=kind)
-                    if rep == 0 and kind in ("v",):
-                        ctx.sample(dict(fd_case=case, source_errors=es, liouville_errors=el))
-                except Exception as ex:
-                    report("finite-difference solver raised %r" % ex,
-                           dict(check="fd", case=case), "raises")
-        phys = [(kind, {}, "Spectral", 40, 5e-3) for kind in ("T", "v", "f", "all")
-                for _ in range(ctx.n(1, 4))] + \
-               [("all", dict(nfields=2), "Spectral", 40, 5e-3),
-                ("all", dict(v0=None), "Spectral", 40, 5e-3),
-                ("all", dict(massless=True, dvmid=-0.04), "Spectral", 40, 5e-3),
-                ("v", dict(), "Finite Difference", 80, 8e-3),
-                ("all", dict(), "Finite Difference", 80, 8e-3)]
+            guard("solver", dict(check="production", case=case, bases=bases),
+                  lambda: check_production(case, report, bases))
+            ctx.count("family_production_size", case, bucket="%dx%d/P%d" % (M, N, nP))
+        # finite differences against the spectral oracle: one AND two particles for every kind
+        # that has a particle axis in play (field varying)
+        fdplan = [("T", 1, 3), ("v", 2, 3), ("f", 2, 3), ("all", 2, 3), ("f", 3, 3)]
         if not ctx.quick:
-            phys += [(k, dict(nfields=2, v0=None), m, M, t) for k in ("T", "v", "f", "all")
+            fdplan += [(k, 1 + r % 3, rng.choice([3, 5])) for k in ("T", "v", "f", "all")
+                       for r in range(4)]
+        for (kind, nP, N) in fdplan:
+            case = rand_case(rng, 0, N, nP, kind)
+            r = guard("finite-difference solver", dict(check="fd", case=case),
+                      lambda: check_fd(case, report))
+            ctx.count("fd_vs_spectral_refinement", case, bucket="%s/P%d" % (kind, nP))
+            if r and kind == "f" and nP == 2:
+                ctx.sample(dict(fd_case=case, source_errors=r[0], liouville_errors=r[1]))
+        phys = [(kind, {}, "Spectral", 40, 5e-3, 1 + i % 2)
+                for i, kind in enumerate(("T", "v", "f", "all")) for _ in range(ctx.n(1, 4))] + \
+               [("all", dict(nfields=2), "Spectral", 40, 5e-3, 2),
+                ("all", dict(v0=None), "Spectral", 40, 5e-3, 1),
+                ("all", dict(massless=True, dvmid=-0.04), "Spectral", 40, 5e-3, 2),
+                ("f", dict(), "Spectral", 41, 5e-3, 3),
+                ("v", dict(), "Finite Difference", 80, 8e-3, 1),
+                ("f", dict(), "Finite Difference", 80, 8e-3, 2),
+                ("all", dict(), "Finite Difference", 80, 8e-3, 2)]
+        if not ctx.quick:
+            phys += [(k, dict(nfields=2, v0=None), m, M, t, 1 + i % 3)
+                     for i, k in enumerate(("T", "v", "f", "all"))
                      for (m, M, t) in (("Spectral", 40, 5e-3), ("Finite Difference", 80, 8e-3))]
-        for rep, (kind, var, mode, M, tol) in enumerate(phys):
-            case = rand_case(rng, 0, 3, 1 + rep % 2, kind, **var)
-            try:
-                e = check_physics(case, report, M, mode, tol)
-                ctx.count("physics_source_vs_liouville_feq", case,
-                          bucket="%s/%s" % (kind, mode.split()[0]))
-                if kind == "all" and rep < 8 and not var:
-                    ctx.sample(dict(physics_case=case, mode=mode, rel_diff=e))
-            except Exception as ex:
-                ctx.log(traceback.format_exc())
-                report("physics check raised %r" % ex, dict(check="physics", case=case, M=M,
-                                                            mode=mode, tol=tol), "raises")
-        for rep in range(ctx.n(2, 8)):
-            var = [dict(), dict(cmult=None), dict(nfields=2), dict(v0=None)][rep % 4]
-            case = rand_case(rng, rng.choice([6, 8]), rng.choice([3, 5]), 1 + rep % 3,
+        for rep, (kind, var, mode, M, tol, nP) in enumerate(phys):
+            case = rand_case(rng, 0, 3, nP, kind, **var)
+            e = guard("physics check", dict(check="physics", case=case, M=M, mode=mode, tol=tol),
+                      lambda: check_physics(case, report, M, mode, tol))
+            ctx.count("physics_source_vs_liouville_feq", case,
+                      bucket="%s/%s/P%d" % (kind, mode.split()[0], nP))
+            if kind == "all" and not var:
+                ctx.sample(dict(physics_case=case, mode=mode, rel_diff=e))
+        for rep in range(ctx.n(3, 10)):
+            var = [dict(), dict(cmult=None), dict(grid="Grid3Scales"), dict(nfields=2),
+                   dict(v0=None)][rep % 5]
+            case = rand_case(rng, rng.choice([6, 7, 8]), rng.choice([3, 5]), 1 + rep % 3,
                              rng.choice(["all", "v", "T"]), **var)
-            try:
-                check_reuse(case, report)
-            except Exception as ex:
-                ctx.log(traceback.format_exc())
-                report("re-use check raised %r" % ex, dict(check="reuse", case=case), "raises")
+            guard("re-use check", dict(check="reuse", case=case),
+                  lambda: check_reuse(case, report))
             ctx.count("history_reuse", case)
         for rep in range(ctx.n(2, 6)):
+            var = [dict(), dict(grid="Grid3Scales")][rep % 2]
+            case = rand_case(rng, rng.choice([6, 7]), 3, 1 + rep % 2, "all", **var)
+            guard("grid mutation check", dict(check="gridmut", case=case),
+                  lambda: check_grid_mutation(case, report))
+            ctx.count("history_grid_mutation", case)
+        for rep in range(ctx.n(2, 6)):
             case = rand_case(rng, rng.choice([6, 8]), 3, 1 + rep % 2, rng.choice(["v", "all"]),
-                             **(dict(v0=None) if rep % 2 else {}))
-            try:
-                check_background(case, report)
-            except Exception as ex:
-                ctx.log(traceback.format_exc())
-                report("background check raised %r" % ex, dict(check="background", case=case),
-                       "raises")
+                             **([dict(), dict(v0=None), dict(grid="Grid3Scales")][rep % 3]))
+            guard("background check", dict(check="background", case=case),
+                  lambda: check_background(case, report))
             ctx.count("background_aliasing", case)
-        for rep in range(ctx.n(2, 8)):
-            case = rand_case(rng, rng.choice([6, 8, 10]), rng.choice([3, 5]), 1 + rep % 2, "all",
-                             **([{}, dict(cmult=None), dict(v0=None, nfields=2)][rep % 3]))
-            try:
-                check_history(case, report)
-            except Exception as ex:
-                ctx.log(traceback.format_exc())
-                report("history check raised %r" % ex, dict(check="history", case=case),
-                       "raises")
+        for rep in range(ctx.n(3, 9)):
+            case = rand_case(rng, rng.choice([6, 8, 9]), rng.choice([3, 5]), 1 + rep % 2, "all",
+                             **([{}, dict(cmult=None), dict(grid="Grid3Scales", nfields=2,
+                                                            v0=None)][rep % 3]))
+            guard("history check", dict(check="history", case=case),
+                  lambda: check_history(case, report))
             ctx.count("history_fd_crosscheck", case)
     finally:
         for k, info, rows, p, pr in procs:
@@ -903,6 +1050,8 @@ def run(ctx):
                 ctx.log("case", json.dumps(info))
             elif k == 0:
                 ctx.sample(dict(corr=info, values=rows[:4]))
+    ctx.cov["margins"] = {k: float("%.3g" % v) for k, v in sorted(MARGINS.items())}
+    ctx.log("margins (largest observed/tolerance):", ctx.cov["margins"])
     ctx.cov["rule"] = (
         "family: one physical problem (1-3 random Fermion/Boson particles, random couplings, "
         "random diagonally dominant collision tensor, tanh wall varying T / v / field / all / "
@@ -911,17 +1060,21 @@ def run(ctx):
         "solved in the four (basisM,basisN) combinations and in finite-difference mode: residual "
         "(1e-11), double precision, homogeneous => 0, EVERY output of getDeltas() and of "
         "getDeltas(deltaF) (deltaF at 25 off-grid points, 4 Deltas, truncationError, both "
-        "linearisation criteria) equal across bases (1e-9) and between the two call forms "
+        "linearisation criteria) equal across bases (1e-11) and between the two call forms "
         "(1e-12), argument not mutated, assembled-operator factorisation and its per-factor "
         "hypotheses, zero row sums of both d/dchi matrices, cond(matrix(basis)) < 1e8; "
         "production: the same residual/outputs comparison at M=22 (30), N=11 (2100 / 2900 "
-        "unknowns); fd: source and Liouville(test function) FD vs spectral at M=10,20,40; "
+        "unknowns) and 2-3 particles at N = 9, 11; odd and even M; fd: source and "
+        "Liouville(test function) FD vs spectral at M=10,20,40 with 1, 2 and 3 particles; "
         "physics: Liouville coefficients read off the code vs dchi/dxi gamma_w (pz - vw E) "
         "(1e-9) and dchi/dxi drz/dpz gamma_w/2 dm2/dchi, source vs the analytic -L[f_eq] with "
         "the code's _feq (spectral M=40 rel 5e-3, finite differences M=80 rel 8e-3); history: "
         "spectral / real EOM.getBoltzmannFiniteDifference twice / spectral (all outputs), FD "
         "result vs an independent FD solver; reuse: one solver through bg1 -> homogeneous -> "
-        "bg2 -> bg1 vs fresh solvers (bitwise); background aliasing; certified_eval: entries of "
+        "bg2 -> bg1 vs fresh solvers (bitwise); grid rescaled in place on a live solver vs a "
+        "solver on a fresh grid of the new scale; background aliasing; run-time copy hooks of "
+        "every WallGo object reachable from a live solver; margins = largest observed/tolerance "
+        "per check; certified_eval: entries of "
         "source, operator, liouville, collision of the running code vs the generated Coq kernels "
         "by interval arithmetic (rel 1e-9); distinct = distinct case dictionary")
     ctx.assumptions += [
@@ -952,6 +1105,8 @@ def replay(rep):
                          else None)
     elif kind == "reuse":
         check_reuse(case, report)
+    elif kind == "gridmut":
+        check_grid_mutation(case, report)
     elif kind == "fd":
         check_fd(case, report)
     elif kind == "history":
